@@ -66,7 +66,7 @@ def evaluate(case, drv):
         if c0 is None or c1 is None:
             if (c0 is None) != (c1 is None):
                 res["fail"].append({"family": case["family"], "kind": "parsability-differs", "detail": "annotate off parses: %s, on parses: %s" % (c0 is not None, c1 is not None),
-                                    "tags": case.get("tags", []), "observed": (o0 if c0 is None else o1)[:800]})
+                                    "tags": case.get("tags", []) + c02.input_tags(case["src"]), "observed": (o0 if c0 is None else o1)[:800]})
             else:
                 res["stats"][fam + ".unparsable-both"] = 1
             continue
